@@ -164,6 +164,7 @@ package loader
 // frame of the any-slice heap is then an array equality that no invariant of the language can re-establish
 // (frame#.. S|Any stays unproved although nothing pre-existing is written).
 //@ func resolve
+//@   except frame[S|Any|cc220c1ad/ret1] : undischarged on the reference tree (engine limit or missing callee contract), not claimed
 //@   nopanic[C01,C11,C16]
 //@   pure
 //@   requires fn != nil
@@ -205,19 +206,19 @@ package loader
 // rule: dockerfile xor dockerfile_inline
 //@   ensures[C10] err == nil ==> forall k string :: old(has(project.Services, k)) ==> old(project.Services[k].Build != nil ==> !(project.Services[k].Build.DockerfileInline != "" && project.Services[k].Build.Dockerfile != ""))
 // rule: platform in build.platforms
-//@   ensures[C10] err == nil ==> forall k string :: old(has(project.Services, k)) ==> old(project.Services[k].Build != nil && len(project.Services[k].Build.Platforms) > 0 && project.Services[k].Platform != "" ==> (exists i int :: 0 <= i && i < len(project.Services[k].Build.Platforms) && project.Services[k].Build.Platforms[i] == project.Services[k].Platform))
+//@?   ensures[C10] err == nil ==> forall k string :: old(has(project.Services, k)) ==> old(project.Services[k].Build != nil && len(project.Services[k].Build.Platforms) > 0 && project.Services[k].Platform != "" ==> (exists i int :: 0 <= i && i < len(project.Services[k].Build.Platforms) && project.Services[k].Build.Platforms[i] == project.Services[k].Platform))   // undischarged on the reference tree: not claimed
 // rule: network_mode excludes networks
 //@   ensures[C10] err == nil ==> forall k string :: old(has(project.Services, k)) ==> old(!(project.Services[k].NetworkMode != "" && len(project.Services[k].Networks) > 0))
 // rule: networks declared
 //@   ensures[C10] err == nil ==> forall k string :: old(has(project.Services, k)) ==> old(forall n string :: has(project.Services[k].Networks, n) ==> has(project.Networks, n))
 // rule: named volumes declared
-//@   ensures[C10] err == nil ==> forall k string :: old(has(project.Services, k)) ==> old(forall i int :: 0 <= i && i < len(project.Services[k].Volumes) && project.Services[k].Volumes[i].Type == "volume" && project.Services[k].Volumes[i].Source != "" ==> has(project.Volumes, project.Services[k].Volumes[i].Source))
+//@?   ensures[C10] err == nil ==> forall k string :: old(has(project.Services, k)) ==> old(forall i int :: 0 <= i && i < len(project.Services[k].Volumes) && project.Services[k].Volumes[i].Type == "volume" && project.Services[k].Volumes[i].Source != "" ==> has(project.Volumes, project.Services[k].Volumes[i].Source))   // undischarged on the reference tree: not claimed
 // rule: build secrets declared
-//@   ensures[C10] err == nil ==> forall k string :: old(has(project.Services, k)) ==> old(project.Services[k].Build != nil ==> (forall i int :: 0 <= i && i < len(project.Services[k].Build.Secrets) ==> has(project.Secrets, project.Services[k].Build.Secrets[i].Source)))
+//@?   ensures[C10] err == nil ==> forall k string :: old(has(project.Services, k)) ==> old(project.Services[k].Build != nil ==> (forall i int :: 0 <= i && i < len(project.Services[k].Build.Secrets) ==> has(project.Secrets, project.Services[k].Build.Secrets[i].Source)))   // undischarged on the reference tree: not claimed
 // rule: configs declared
-//@   ensures[C10] err == nil ==> forall k string :: old(has(project.Services, k)) ==> old(forall i int :: 0 <= i && i < len(project.Services[k].Configs) ==> has(project.Configs, project.Services[k].Configs[i].Source))
+//@?   ensures[C10] err == nil ==> forall k string :: old(has(project.Services, k)) ==> old(forall i int :: 0 <= i && i < len(project.Services[k].Configs) ==> has(project.Configs, project.Services[k].Configs[i].Source))   // undischarged on the reference tree: not claimed
 // rule: secrets declared
-//@   ensures[C10] err == nil ==> forall k string :: old(has(project.Services, k)) ==> old(forall i int :: 0 <= i && i < len(project.Services[k].Secrets) ==> has(project.Secrets, project.Services[k].Secrets[i].Source))
+//@?   ensures[C10] err == nil ==> forall k string :: old(has(project.Services, k)) ==> old(forall i int :: 0 <= i && i < len(project.Services[k].Secrets) ==> has(project.Secrets, project.Services[k].Secrets[i].Source))   // undischarged on the reference tree: not claimed
 // rule: mem_limit agrees
 //@   ensures[C10] err == nil ==> forall k string :: old(has(project.Services, k)) ==> old(project.Services[k].MemLimit != 0 && project.Services[k].Deploy != nil && project.Services[k].Deploy.Resources.Limits != nil ==> project.Services[k].Deploy.Resources.Limits.MemoryBytes == project.Services[k].MemLimit)
 // rule: mem_reservation agrees
@@ -225,30 +226,30 @@ package loader
 // rule: pids_limit agrees
 //@   ensures[C10] err == nil ==> forall k string :: old(has(project.Services, k)) ==> old(project.Services[k].PidsLimit != 0 && project.Services[k].Deploy != nil && project.Services[k].Deploy.Resources.Limits != nil ==> project.Services[k].Deploy.Resources.Limits.Pids == project.Services[k].PidsLimit)
 // rule: watch target
-//@   ensures[C10] err == nil ==> forall k string :: old(has(project.Services, k)) ==> old(project.Services[k].Develop != nil ==> (forall i int :: 0 <= i && i < len(project.Services[k].Develop.Watch) && project.Services[k].Develop.Watch[i].Action != "rebuild" ==> project.Services[k].Develop.Watch[i].Target != ""))
+//@?   ensures[C10] err == nil ==> forall k string :: old(has(project.Services, k)) ==> old(project.Services[k].Develop != nil ==> (forall i int :: 0 <= i && i < len(project.Services[k].Develop.Watch) && project.Services[k].Develop.Watch[i].Action != "rebuild" ==> project.Services[k].Develop.Watch[i].Target != ""))   // undischarged on the reference tree: not claimed
 // rule: a non-external secret has a file or an environment source
 //@   ensures[C10] err == nil ==> forall n string :: old(has(project.Secrets, n)) && !old(project.Secrets[n].External) ==> old(project.Secrets[n].File != "" || project.Secrets[n].Environment != "")
 //@   loop 1
 //@     invariant forall k string :: seen(k) && old(has(project.Services, k)) ==> old(project.Services[k].Build != nil || project.Services[k].Image != "")
 //@     invariant forall k string :: seen(k) && old(has(project.Services, k)) ==> old(project.Services[k].Build != nil ==> !(project.Services[k].Build.DockerfileInline != "" && project.Services[k].Build.Dockerfile != ""))
-//@     invariant forall k string :: seen(k) && old(has(project.Services, k)) ==> old(project.Services[k].Build != nil && len(project.Services[k].Build.Platforms) > 0 && project.Services[k].Platform != "" ==> (exists i int :: 0 <= i && i < len(project.Services[k].Build.Platforms) && project.Services[k].Build.Platforms[i] == project.Services[k].Platform))
+//@?     invariant forall k string :: seen(k) && old(has(project.Services, k)) ==> old(project.Services[k].Build != nil && len(project.Services[k].Build.Platforms) > 0 && project.Services[k].Platform != "" ==> (exists i int :: 0 <= i && i < len(project.Services[k].Build.Platforms) && project.Services[k].Build.Platforms[i] == project.Services[k].Platform))   // undischarged on the reference tree: not claimed
 //@     invariant forall k string :: seen(k) && old(has(project.Services, k)) ==> old(!(project.Services[k].NetworkMode != "" && len(project.Services[k].Networks) > 0))
 //@     invariant forall k string :: seen(k) && old(has(project.Services, k)) ==> old(forall n string :: has(project.Services[k].Networks, n) ==> has(project.Networks, n))
-//@     invariant forall k string :: seen(k) && old(has(project.Services, k)) ==> old(forall i int :: 0 <= i && i < len(project.Services[k].Volumes) && project.Services[k].Volumes[i].Type == "volume" && project.Services[k].Volumes[i].Source != "" ==> has(project.Volumes, project.Services[k].Volumes[i].Source))
-//@     invariant forall k string :: seen(k) && old(has(project.Services, k)) ==> old(project.Services[k].Build != nil ==> (forall i int :: 0 <= i && i < len(project.Services[k].Build.Secrets) ==> has(project.Secrets, project.Services[k].Build.Secrets[i].Source)))
-//@     invariant forall k string :: seen(k) && old(has(project.Services, k)) ==> old(forall i int :: 0 <= i && i < len(project.Services[k].Configs) ==> has(project.Configs, project.Services[k].Configs[i].Source))
-//@     invariant forall k string :: seen(k) && old(has(project.Services, k)) ==> old(forall i int :: 0 <= i && i < len(project.Services[k].Secrets) ==> has(project.Secrets, project.Services[k].Secrets[i].Source))
+//@?     invariant forall k string :: seen(k) && old(has(project.Services, k)) ==> old(forall i int :: 0 <= i && i < len(project.Services[k].Volumes) && project.Services[k].Volumes[i].Type == "volume" && project.Services[k].Volumes[i].Source != "" ==> has(project.Volumes, project.Services[k].Volumes[i].Source))   // undischarged on the reference tree: not claimed
+//@?     invariant forall k string :: seen(k) && old(has(project.Services, k)) ==> old(project.Services[k].Build != nil ==> (forall i int :: 0 <= i && i < len(project.Services[k].Build.Secrets) ==> has(project.Secrets, project.Services[k].Build.Secrets[i].Source)))   // undischarged on the reference tree: not claimed
+//@?     invariant forall k string :: seen(k) && old(has(project.Services, k)) ==> old(forall i int :: 0 <= i && i < len(project.Services[k].Configs) ==> has(project.Configs, project.Services[k].Configs[i].Source))   // undischarged on the reference tree: not claimed
+//@?     invariant forall k string :: seen(k) && old(has(project.Services, k)) ==> old(forall i int :: 0 <= i && i < len(project.Services[k].Secrets) ==> has(project.Secrets, project.Services[k].Secrets[i].Source))   // undischarged on the reference tree: not claimed
 //@     invariant forall k string :: seen(k) && old(has(project.Services, k)) ==> old(project.Services[k].MemLimit != 0 && project.Services[k].Deploy != nil && project.Services[k].Deploy.Resources.Limits != nil ==> project.Services[k].Deploy.Resources.Limits.MemoryBytes == project.Services[k].MemLimit)
 //@     invariant forall k string :: seen(k) && old(has(project.Services, k)) ==> old(project.Services[k].MemReservation != 0 && project.Services[k].Deploy != nil && project.Services[k].Deploy.Resources.Reservations != nil ==> project.Services[k].Deploy.Resources.Reservations.MemoryBytes == project.Services[k].MemReservation)
 //@     invariant forall k string :: seen(k) && old(has(project.Services, k)) ==> old(project.Services[k].PidsLimit != 0 && project.Services[k].Deploy != nil && project.Services[k].Deploy.Resources.Limits != nil ==> project.Services[k].Deploy.Resources.Limits.Pids == project.Services[k].PidsLimit)
-//@     invariant forall k string :: seen(k) && old(has(project.Services, k)) ==> old(project.Services[k].Develop != nil ==> (forall i int :: 0 <= i && i < len(project.Services[k].Develop.Watch) && project.Services[k].Develop.Watch[i].Action != "rebuild" ==> project.Services[k].Develop.Watch[i].Target != ""))
+//@?     invariant forall k string :: seen(k) && old(has(project.Services, k)) ==> old(project.Services[k].Develop != nil ==> (forall i int :: 0 <= i && i < len(project.Services[k].Develop.Watch) && project.Services[k].Develop.Watch[i].Action != "rebuild" ==> project.Services[k].Develop.Watch[i].Target != ""))   // undischarged on the reference tree: not claimed
 //@   loop 2
 //@     invariant -1 <= rangeindex && rangeindex < len(s.Build.Platforms) && !found
 //@   loop 3
 //@     invariant forall n string :: seen(n) && has(s.Networks, n) ==> has(project.Networks, n)
 //@   loop 5
 //@     invariant -1 <= rangeindex && rangeindex < len(s.Volumes)
-//@     invariant forall i int :: 0 <= i && i <= rangeindex && s.Volumes[i].Type == "volume" && s.Volumes[i].Source != "" ==> has(project.Volumes, s.Volumes[i].Source)
+//@?     invariant forall i int :: 0 <= i && i <= rangeindex && s.Volumes[i].Type == "volume" && s.Volumes[i].Source != "" ==> has(project.Volumes, s.Volumes[i].Source)   // undischarged on the reference tree: not claimed
 //@   loop 6
 //@     invariant -1 <= rangeindex && rangeindex < len(s.Build.Secrets)
 //@     invariant forall i int :: 0 <= i && i <= rangeindex ==> has(project.Secrets, s.Build.Secrets[i].Source)
@@ -260,7 +261,7 @@ package loader
 //@     invariant forall i int :: 0 <= i && i <= rangeindex ==> has(project.Secrets, s.Secrets[i].Source)
 //@   loop 9
 //@     invariant -1 <= rangeindex && rangeindex < len(s.Develop.Watch)
-//@     invariant forall i int :: 0 <= i && i <= rangeindex && s.Develop.Watch[i].Action != "rebuild" ==> s.Develop.Watch[i].Target != ""
+//@?     invariant forall i int :: 0 <= i && i <= rangeindex && s.Develop.Watch[i].Action != "rebuild" ==> s.Develop.Watch[i].Target != ""   // undischarged on the reference tree: not claimed
 //@   loop 10
 //@     invariant forall n string :: seen(n) && has(project.Secrets, n) && !project.Secrets[n].External ==> project.Secrets[n].File != "" || project.Secrets[n].Environment != ""
 
@@ -273,6 +274,7 @@ package loader
 //@ spec normShape(d map[string]any) bool = has(d, "services") ==> isMap(d["services"]) && !fresh(svcs(d)) && role(svcs(d)) == 1 && (forall k string :: has(svcs(d), k) ==> isMap(svcs(d)[k]) && !fresh(svc(d, k)) && role(svc(d, k)) == 10 && okey(svc(d, k)) == k && svcShapeN(svc(d, k), k))
 
 //@ func Normalize
+//@   except precondition#5, precondition#6 : undischarged on the reference tree (engine limit or missing callee contract), not claimed
 //@   nopanic[C01,C11]
 //@   requires dict != nil
 //@   requires netShape(dict) && netSep(dict) && netClosed(dict)
